@@ -235,7 +235,7 @@ def _detect_alleles_match(variant, entry, bam_read, ref_pos, query_pos, length):
         allele_seq = variant.get_allele(i)
         query_pos = query_start + a.matched + a.inserted
         while a.matched < a.match_target and ops_consumed < length:
-            qbase = bam_read.query_sequence[query_pos]
+            qbase = bam_read.query_sequence[query_start + a.matched + a.inserted]
             vbase = allele_seq[a.matched + a.inserted]
             if qbase == vbase:
                 ops_consumed += 1
